@@ -122,6 +122,24 @@ Theorem C05_response_function_of_request :
 Proof. exact C05_seq_lemma. Qed.
 Print Assumptions C05_response_function_of_request.
 
+(* Application-supplied errors_map (any map, through the constructor or setup()):
+   BaseRequest._raise looks up the exact class of the error, then the family
+   base RequestError.  So every truncated chunked body is answered with the
+   status mapped for BodyParsingError, or — when only the base class is mapped —
+   with the status of RequestError: a client error either way, never the bare
+   exception.  (wsgi_body = Request.body through _body and _raise.) *)
+Theorem C05_truncation_mapped_by_family :
+  forall (m : list (list N * (Z * list N))) (cs : list chunk) (last : chunk) (p : list N) (buf : nat)
+         (sc : list nat) (clraw : option (list N)) (te : list N) (cl code : Z),
+    te_chunked te = true -> content_length_raw clraw = Some cl ->
+    Forall chunk_ok cs -> last_ok last ->
+    strict_prefix p (flat_map enc_chunk cs ++ enc_line last) ->
+    (emap_get m cls_BodyParsingError = Some code
+     \/ (emap_get m cls_BodyParsingError = None /\ emap_get m cls_RequestError = Some code)) ->
+    exists s', wsgi_body m (stream_init p sc) buf None clraw te = WStatus code s'.
+Proof. exact C05_truncation_mapped_lemma. Qed.
+Print Assumptions C05_truncation_mapped_by_family.
+
 (* Hex round trip: int(b.strip(), 16) reads every spelling of n (k leading
    zeros, any per-digit case choice) back as n; and every plain hexadecimal
    numeral is read with its value. *)
@@ -173,7 +191,7 @@ Proof. vm_compute. exact I. Qed.
 (* the parsing error is answered 400 by the errors_map of the current source
    (gen/Gen.v, regenerated from /repo on every run; request.py:_raise) *)
 Example C05_parse_error_is_400 :
-  BodyLimits.raise_status Gen.errors_map BodyLimits.cls_BodyParsingError BodyLimits.cls_RequestError
+  raise_status Gen.errors_map cls_BodyParsingError cls_RequestError
   = Some 400%Z.
 Proof. reflexivity. Qed.
 
